@@ -17,6 +17,7 @@
 -/
 import KatdalModel.Lemmas.FirstStage
 import KatdalModel.Lemmas.Compose
+import KatdalModel.Lemmas.ConcatHead
 open Np Index LazyIx
 
 namespace C05
@@ -221,6 +222,18 @@ theorem c05_getitem : ∀ (shape : List Nat) (k1 k2 : List Ix), allInG shape k1 
 theorem c05_transform {α β} (f : α → β) (a : NDArr α) (s : List Sel) :
     oindexSel (a.map f) s = (oindexSel a s).map f := oindexSel_map f a s
 
+/-- **Concatenated indexer, integer head index** (negative allowed): reads the part and local
+    position that the same index applied to the concatenation reads -/
+theorem c05_concat_int (lens : List Nat) (i : Int) (h : -(total lens : Int) ≤ i ∧ i < total lens) :
+    concatHead lens (.int i) = concatSpec lens (.int i) := concatHead_int lens i h
+
+/-- **Concatenated indexer, boolean-mask head index**: partitioning the mask over the parts equals
+    applying it to the concatenation (same rows, same order), for any number and sizes of parts
+    including empty parts.  (Slice and integer-list head indices: modelled, executed against the
+    code on every run and `decide`d on instances, general theorem not proved.) -/
+theorem c05_concat_mask (lens : List Nat) (m : List Bool) (h : m.length = total lens) :
+    concatHead lens (.mask m) = concatSpec lens (.mask m) := concatHead_mask lens m h
+
 /-! ### Non-vacuity and witnesses -/
 
 example : allInG [6, 4] [.mask [true, false, true, true, false, true], .slice none none none]
@@ -230,6 +243,10 @@ example : getitemAll [6, 4] [.mask [true, false, true, true, false, true], .slic
 -- dense selection (span-and-postselect strategy) and sparse selection (one slice per run)
 example : getitem1 10 (.slice none none none) (.list [1, 2, 5, 6]) = .ok (.many [1, 2, 5, 6]) := by decide
 example : getitem1 30 (.slice none none none) (.list [1, 2, 5, 6]) = .ok (.many [1, 2, 5, 6]) := by decide
+example : concatHead [2, 0, 3] (.int (-1)) = .ok (true, [(2, 2)]) := by decide
+example : concatHead [2, 3] (.mask [false, true, true, false, true]) = .ok (false, [(0, 1), (1, 0), (1, 2)]) := by decide
+example : concatHead [3, 3] (.slice (some 1) (some 6) (some 2)) = concatSpec [3, 3] (.slice (some 1) (some 6) (some 2)) := by decide
+example : concatHead [2, 0, 3] (.list [1, 2, 4]) = concatSpec [2, 0, 3] (.list [1, 2, 4]) := by decide
 -- repeated equal entries are rejected (the defect repaired in /repo commit 35c2508)
 example : getitem1 6 (.slice none none none) (.list [2, 2]) = .error .type := by decide
 -- all-False mask is an empty selection (the defect repaired in /repo commit 51619a3)
